@@ -6,7 +6,13 @@ explicit override/cache/getter state machine written from the property text.
 
 Case shapes (JSON):
   {"kind": "sp", "cfg": "<ov><ca><fs><fd>", "host": "plain|spec|specann|specprep" or a layout "d/sap",
-   "hg": 1, "aae": 1, "getter": [tok...], "ops": ["r", "a i1", "d", "b", ...]}
+   "hg": 1, "aae": 1, "ann": "int|opt|any|str", "getter": [tok...], "ops": ["r", "a i1", "d", "b", ...]}
+"ann" is the annotation every annotating class of the layout gives `x`: int (default), Optional[int], Any, str.
+Every decorated class also annotates a second attribute `y: int = 0`; the instance-level ops
+  c (obj = copy.deepcopy(obj))   w <v> (obj = obj.with_y(v))   u <v> (obj = obj.update_y(v))   Z (obj = obj.reset_y())
+  y <v> (obj.y = v, in place)    W <v> (obj = obj.with_x(v))   R (obj = obj.reset_x())
+continue on the instance the helper returned (a copy, a copy of a copy, ...); their result is `ok same` (the instance
+itself came back) or `ok new ^<state of the instance the helper was applied to>` (which must not have changed).
 A layout is the inheritance chain of type(instance), base first, classes separated by `/`, each class a subset of
 the letters s (decorated with @spec_class) d (declares the spec_property) a (annotates `x: int`) p (defines
 `_prepare_x`), `-` for none; the four named hosts are the one-class layouts d, sd, sda, sdap. When several classes
@@ -18,19 +24,26 @@ current path, then apply the op. The model side rewinds its (pure) state; the re
 rebuilds a fresh object and replays the k operations. One case can thus carry a whole
 tree of operation sequences (one protocol line per tree edge).
 Value tokens: i<int> (an int; i0 is falsy), s<int> (the str "s<int>"), M/E/U (MISSING/EMPTY/UNCHANGED),
-N/F/e/L (the falsy None / False / "" / []); i97 / i96 / s3, s7, .. make the preparer of a host that has
-one raise TypeError / AttributeError / ValueError; getter tokens additionally !A !R !V !K !T (the getter raises
+N/F/e/L (the falsy None / False / "" / []; the preparer of a host that has one turns None / "" / [] into
+3000 / 3001 / 3002); i97 / i96 / s3, s7, .. make the preparer raise TypeError / AttributeError / ValueError; getter tokens additionally !A !R !V !K !T (the getter raises
 that class) and z (a falsy value depending on the class the classproperty getter runs on: 0, "", None).
 "build" says how the descriptor is put together: "ctor" (everything through the constructor), "deco"
 (decorator-with-options, then .setter/.deleter), "chain-gsd"/"chain-dsg" (.getter/.setter/.deleter chains
 in two orders starting from a getter-less property); all must behave like the nominal configuration.
 """
+import copy
 import itertools
 
 PID = "C12"
 LEAN_TARGETS = ["SpecVerif.Props.C12"]
 AUDIT = [("SpecVerif.Props.C12", "SpecVerif.Props.C12")]
 DRIVER = "Drivers/C12.lean"
+# library files the model mirrors beyond the property's anchor (spec_property.py): a change in any of them directs
+# the deeper differential run (escalation) as well
+SOURCE_FILES = [
+    "spec_classes/utils/mutation.py", "spec_classes/methods/core.py", "spec_classes/methods/scalar.py",
+    "spec_classes/spec_class.py",
+]
 REQUIRED_THEOREMS = [
     "SpecVerif.Props.C12.protocol",
     "SpecVerif.Props.C12.read_protocol",
@@ -54,6 +67,14 @@ REQUIRED_THEOREMS = [
     "SpecVerif.Props.C12.resolveMI_nil_right",
     "SpecVerif.Props.C12.resolveMI_managed_iff",
     "SpecVerif.Props.C12.mi_inherited_reads_conform",
+    "SpecVerif.Props.C12.deepcopy_keeps_everything",
+    "SpecVerif.Props.C12.cow_forms",
+    "SpecVerif.Props.C12.instance_history_projects",
+    "SpecVerif.Props.C12.copies_follow_protocol",
+    "SpecVerif.Props.C12.other_attribute_ops_invisible",
+    "SpecVerif.Props.C12.override_survives_copies",
+    "SpecVerif.Props.C12.cache_survives_copies",
+    "SpecVerif.Props.C12.failed_helper_changes_nothing",
     "SpecVerif.Props.C12.cp_protocol",
     "SpecVerif.Props.C12.cp_read_protocol",
     "SpecVerif.Props.C12.cp_set_rejected",
@@ -66,9 +87,9 @@ REQUIRED_THEOREMS = [
 RULE = (
     "spec_property: every one of the 16 (overridable, cache, setter, deleter) combinations x 4 hosts (plain class, "
     "spec class without annotation, spec class with managed int annotation, the same with a preparer) x EVERY "
-    "operation sequence up to length 5 (quick) / 6, and 7 on the plain and preparer hosts (thorough) over "
+    "operation sequence up to length 4 / 6 (quick / thorough), one longer (5 / 7) on the plain and preparer hosts, over "
     "{read, assign 0, assign 2, delete, bump underlying state} with getter results alternating falsy and truthy "
-    "values (0, 11, False, 13, '', 15, None, 17, []), the descriptor built in four ways (constructor, decorator with "
+    "values (0, 11, None, 13, '', 15, False, 17, []; the preparer host turns None / '' / [] into 3000 / 3001 / 3002), the descriptor built in four ways (constructor, decorator with "
     "options, .getter/.setter/.deleter chains in two orders) rotating over the subtrees, walked as a tree with one compared protocol line per "
     "edge (`@k op` rewinds to depth k; the real side rebuilds the object and replays), then a seeded "
     "malformed stream (getters returning sentinels / ill-typed values / raising, assignment of sentinels and ill-typed "
@@ -78,10 +99,19 @@ RULE = (
     "not; at least one declares; 200 layouts) x every sequence up to length 3 (quick) / 4 over {read, assign 97 (the "
     "preparer raises), assign 2, delete, bump}, once with overridable+cache and getter results that make a preparer "
     "raise ValueError / TypeError / AttributeError, once with one of the 16 combinations in rotation (main table, or "
-    "allow_attribute_error off with AttributeErrors from getter and preparer); every three-class chain (3584) to "
+    "allow_attribute_error off with AttributeErrors from getter and preparer) over {read, assign 2, delete, bump, "
+    "obj = obj.with_y(5) [helper of ANOTHER attribute: what follows happens on a copy, a copy of a copy, ...], "
+    "obj = obj.with_x(3)} with the annotation of x rotating over int / Optional[int] / Any; INSTANCE-LEVEL HISTORIES: "
+    "all 16 combinations on the spec hosts x every sequence up to length 3 (quick) / 4 over {read, assign 2, delete, bump, "
+    "copy.deepcopy, with_y, with_x, reset_x}, one level deeper without deepcopy / reset_x on the preparer host; "
+    "ANNOTATIONS: Optional[int], Any, str on the annotated hosts x 16 combinations x every sequence up to length 3 / 4 "
+    "over {read, assign 0, assign None, delete, bump, with_x(None)} with getter results None / '' / a sentinel / an "
+    "ill-typed value first; every three-class chain (3584) to "
     "depth 2 and multiple inheritance class Leaf(L, R) over all single-class L, R, Leaf (3584 shapes) to depth 2: all "
     "at thorough, a seeded sample of 1000 each at quick; the random streams draw a named host or a random layout "
-    "(chains up to 4 classes, two base chains joined and continued) per case; classproperty: 32 "
+    "(chains up to 4 classes, two base chains joined and continued) and an annotation per drawn host, three histories per host, "
+    "60 % of them mixed with deepcopy / with_y / update_y / reset_y / obj.y = v / with_x / reset_x (ill-typed and "
+    "sentinel arguments in the malformed stream); classproperty: 32 "
     "(overridable, cache, cache_per_subclass, setter, deleter) combinations over a three-class chain A>B>C, every "
     "sequence up to length 3 (quick) / 4 (thorough) over a 13-letter alphabet of reads/assignments/deletions through classes and "
     "instances and bump, then seeded random sequences over the full 25-letter alphabet. A step is non-trivial when "
@@ -90,7 +120,8 @@ RULE = (
 EXHAUSTIVE = {"quick": True, "thorough": True}
 ASSUMPTIONS = [
     "getter, preparer, custom setter and deleter are deterministic functions of their arguments and the underlying state; the custom setter/deleter only record the call",
-    "managed annotation is a scalar type (int): no collection preparation, no dict-as-constructor-arguments branch of mutate_value; the type's constructor (int()) does not raise",
+    "managed annotation is a scalar type (int, Optional[int], Any, str; one annotation per hierarchy): no collection preparation, no dict-as-constructor-arguments branch of mutate_value; the annotation's constructor gives int() / str() or raises TypeError (typing.Union(), typing.Any())",
+    "instance-level operations: the host has ONE other managed attribute `y: int = 0` (annotated by the base-most decorated class of each chain) without preparer; instance-dict values are immutable scalars (a deep copy of a value is the value); no do_not_copy, no __post_copy__, not frozen; update_y is only given real values; with_x / reset_x are not generated where an undecorated class joins two bases",
     "class hierarchies are linear chains, or two linear base chains joined by one class and continued linearly; every class declaring the property declares the same nominal configuration (a copy of the one above); no class attribute named x other than the property; a _prepare_x defined in a class is visible to it and everything below (ordinary attribute lookup)",
     "the preparer is a deterministic function of the value (it may raise); it is called bound to the instance (checked by the harness's preparer)",
     "the instance __dict__ slot of the property is written only through the descriptor (no direct obj.__dict__ pokes); spec class not frozen; no invalidated_by (that is C11)",
@@ -102,9 +133,10 @@ ASSUMPTIONS = [
 
 HOSTS = ["plain", "spec", "specann", "specprep"]
 SP_ALPHABET = ["r", "a i0", "a i2", "d", "b"]  # assigned values: the falsy int 0 and a truthy int
-DEEP_HOSTS = ("plain", "specprep")  # thorough tier: one op deeper on these two hosts
+DEEP_HOSTS = ("plain", "specprep")  # one op deeper on these two hosts (quick: 5 vs 4, thorough: 7 vs 6)
 # getter results by underlying state: falsy and truthy values alternate (0, False conform to int; "", None, [] do not)
-MAIN_TABLE = ["i0", "i11", "F", "i13", "e", "i15", "N", "i17", "L", "i19", "i0", "i21"]
+# (None comes third: `b b r` reads it, and the preparer of a host that has one must turn it into 3000)
+MAIN_TABLE = ["i0", "i11", "N", "i13", "e", "i15", "F", "i17", "L", "i19", "i0", "i21"]
 # classproperty: `z` is a falsy value that still tells the class the getter ran on (0 / "" / None)
 CP_TABLE = ["z", "i11", "z", "i13", "F", "i15", "L", "i17", "N", "i19"]
 # layout trees: the first getter results make a preparer raise (ValueError, then after `bump bump` TypeError), so a
@@ -113,6 +145,18 @@ PREP_TABLE = ["s3", "i11", "i97", "e", "i96", "i13", "s7", "i15"]
 # ... and with allow_attribute_error off: an AttributeError of the preparer (96) is not the getter's, the getter's (!A) is
 AE_TABLE = ["i96", "!A", "i11", "F", "s3", "i13"]
 LAYOUT_ALPHABET = ["r", "a i97", "a i2", "d", "b"]  # `a i97`: the preparer raises while the assignment is delivered
+# second walk of every layout: property operations mixed with a helper of ANOTHER attribute (`w`: the next reads are
+# on a copy, a copy of a copy, ...) and the copy-on-write assignment of the property itself
+LAYOUT_COPY_ALPHABET = ["r", "a i2", "d", "b", "w i5", "W i3"]
+# instance-level trees on the named spec hosts
+COPY_ALPHABET = ["r", "a i2", "d", "b", "c", "w i5", "W i3", "R"]
+COPY_DEEP_ALPHABET = ["r", "a i2", "d", "b", "w i5", "W i3"]
+OBJ_OPS = "cwuZyWR"
+ANNS = {"int": "i", "opt": "o", "any": "y", "str": "t"}
+# annotation trees: None / a sentinel (the constructor of Optional / Any raises) / an ill-typed str come first
+ANN_TABLES = {"opt": ["N", "i11", "M", "s1", "e", "i13"], "any": ["N", "i11", "M", "s1", "e", "i13"],
+              "str": ["e", "s1", "M", "i11", "N", "s5"]}
+ANN_ALPHABET = ["r", "a i0", "a N", "d", "b", "W N"]
 LAYOUT_CFG = "1100"  # overridable + cache: every layout is walked with it, and with one more combination in rotation
 BUILDS = ["deco", "ctor", "chain-gsd", "chain-dsg"]
 CP_SMALL = [
@@ -154,6 +198,9 @@ ERRS = (
 
 class _PerClassFalsy:
     """getter-table entry `z`"""
+
+    def __deepcopy__(self, memo):  # the getter table travels with the instance dict through copies
+        return self
 
 
 PCF = _PerClassFalsy()
@@ -209,7 +256,8 @@ def err_name(e):
 
 def the_preparer(self, v):
     """`_prepare_x` of the hosts that have one (mirrored by `thePreparer` in the driver and `o_prep` in the oracle).
-    It raises for 97 (TypeError), 96 (AttributeError) and the strs s3, s7, ... (ValueError, like `int("x")`)."""
+    It raises for 97 (TypeError), 96 (AttributeError) and the strs s3, s7, ... (ValueError, like `int("x")`).
+    None, "" and [] are values like any other: it turns them into 3000, 3001, 3002 (a preparer supplying a fallback)."""
     if "_tab" not in getattr(self, "__dict__", ()):  # must be bound to the instance being read / assigned
         raise RuntimeError("preparer called on something that is not the instance")
     if isinstance(v, int):  # bool included: False + 1000 == 1000
@@ -223,6 +271,12 @@ def the_preparer(self, v):
         if n % 4 == 3:
             raise ValueError("raised by the preparer")
         return n + 2000 if n % 2 == 0 else v
+    if v is None:
+        return 3000
+    if isinstance(v, str):
+        return 3001
+    if isinstance(v, list) and not v:
+        return 3002
     return v
 
 
@@ -312,8 +366,14 @@ def build_prop(factory, fget, fset, fdel, kw, build):
     return p
 
 
-def sp_class(cfg, host, hg, aae, build="deco"):
-    key = (cfg, host, hg, aae, build)
+def ann_type(ann):
+    from typing import Any, Optional
+
+    return {"int": int, "opt": Optional[int], "any": Any, "str": str}[ann]
+
+
+def sp_class(cfg, host, hg, aae, build="deco", ann="int"):
+    key = (cfg, host, hg, aae, build, ann)
     cls = _S["classes"].get(key)
     if cls is not None:
         return cls
@@ -334,7 +394,12 @@ def sp_class(cfg, host, hg, aae, build="deco"):
                 desc[0] = desc[0].getter(desc[0].fget) if hg else desc[0].setter(desc[0].fset)
             ns["x"] = desc[0]
         if "a" in kind:
-            ns["__annotations__"] = {"x": int}
+            ns["__annotations__"] = {"x": ann_type(ann)}
+        if "s" in kind and not any(hasattr(b, "__spec_class__") for b in bases):
+            # every spec-class instance manages a second attribute (annotated by the base-most decorated class of each
+            # chain, inherited below): the copy-on-write helpers of `y` exist on it
+            ns.setdefault("__annotations__", {})["y"] = int
+            ns["y"] = 0
         if "p" in kind:
             ns["_prepare_x"] = the_preparer
         c = type(f"{name}_{kind or 'none'}", bases, ns)
@@ -357,7 +422,8 @@ def sp_class(cfg, host, hg, aae, build="deco"):
 
 
 def sp_new(case):
-    cls = sp_class(case["cfg"], case["host"], case.get("hg", 1), case.get("aae", 1), case.get("build", "deco"))
+    cls = sp_class(case["cfg"], case["host"], case.get("hg", 1), case.get("aae", 1), case.get("build", "deco"),
+                   case.get("ann", "int"))
     o = cls()
     o.__dict__.update(_n=0, _tab=[untok(t) for t in case["getter"]], _log=[])
     return o
@@ -366,12 +432,35 @@ def sp_new(case):
 def sp_state(o):
     d = o.__dict__
     slot = tok(d["x"]) if "x" in d else "-"
+    other = tok(d["y"]) if "y" in d else "-"
     log = ",".join(d["_log"]) if d["_log"] else "-"
-    return f"{slot} ;; {d['_n']} ;; {log}"
+    return f"{slot} ;; {d['_n']} ;; {other} ;; {log}"
 
 
-def sp_apply(o, op):
+def sp_apply(box, op):
+    """`box[0]` is the current instance; the instance-level ops replace it by what the helper returned."""
+    o = box[0]
     c = op[0]
+    if c in OBJ_OPS:
+        if c == "c":
+            new = copy.deepcopy(o)
+        elif c == "w":
+            new = o.with_y(untok(op[2:]))
+        elif c == "u":
+            new = o.update_y(untok(op[2:]))
+        elif c == "Z":
+            new = o.reset_y()
+        elif c == "y":
+            o.y = untok(op[2:])
+            new = o
+        elif c == "W":
+            new = o.with_x(untok(op[2:]))
+        else:
+            new = o.reset_x()
+        if new is o:
+            return "ok same"
+        box[0] = new
+        return "ok new ^" + sp_state(o).replace(" ;; ", "|")
     if c == "r":
         return "val " + tok(o.x)
     if c == "a":
@@ -386,13 +475,32 @@ def sp_apply(o, op):
     raise ValueError(op)
 
 
+_CHAINS = {}
+
+
+def chain_for(case):
+    """A pristine chain for the case. The three classes and the descriptor are built once per (configuration, build)
+    and handed out again after being reset: the descriptor's `_cache` dict emptied (everything a classproperty
+    remembers lives there -- `state()` prints all of it), counter, log and getter table replaced."""
+    key = (case["cfg"], case.get("hg", 1), case.get("aae", 1), case.get("build", "deco"))
+    ch = _CHAINS.get(key)
+    if ch is None:
+        ch = _CHAINS[key] = Chain(case)
+    else:
+        ch.desc._cache.clear()
+        ch.st["n"] = 0
+        ch.st["log"].clear()
+        ch.tab[:] = [untok(t) for t in case["getter"]]
+    return ch
+
+
 class Chain:
     """Three-class chain A > B > C with one classproperty `x` defined on A."""
 
     def __init__(self, case):
         ov, ca, ps, fs, fd = (c == "1" for c in case["cfg"])
         st = self.st = {"n": 0, "log": []}
-        tab = [untok(t) for t in case["getter"]]
+        tab = self.tab = [untok(t) for t in case["getter"]]
 
         def fget(cls):
             r = tab[st["n"] % len(tab)]
@@ -464,7 +572,7 @@ class Chain:
 
 
 def sp_flags(case):
-    return case["cfg"] + str(case.get("hg", 1)) + str(case.get("aae", 1))
+    return case["cfg"] + str(case.get("hg", 1)) + str(case.get("aae", 1)) + ANNS[case.get("ann", "int")]
 
 
 def model_lines(case):
@@ -486,9 +594,9 @@ def split_op(line, depth):
 def fresh(case):
     """-> (state_fn, apply_fn) on a new real object / class chain."""
     if case["kind"] == "sp":
-        o = sp_new(case)
-        return (lambda: sp_state(o)), (lambda op: sp_apply(o, op))
-    ch = Chain(case)
+        box = [sp_new(case)]
+        return (lambda: sp_state(box[0])), (lambda op: sp_apply(box, op))
+    ch = chain_for(case)
     return ch.state, ch.apply
 
 
@@ -551,8 +659,22 @@ SENT = ("M", "E", "U")
 FALSY_TOKENS = ("i0", "N", "F", "e", "L")
 
 
-def o_conforms(t):
-    return t[0] == "i" or t == "F"  # check_type(False, int) holds (bool is an int)
+def o_conforms(t, ann="int"):
+    """does the value conform to the annotation (int / Optional[int] / Any / str)? check_type(False, int) holds"""
+    if ann == "any":
+        return True
+    if ann == "str":
+        return t[0] == "s" or t == "e"
+    return t[0] == "i" or t == "F" or (ann == "opt" and t == "N")
+
+
+def o_helper_result(out):
+    """a helper of ANOTHER attribute / a plain copy: it returns an instance, or rejects its own argument (TypeError)
+    or does not exist on this host (AttributeError); none of that is the property's business"""
+    return out in ("ok", "err TypeError", "err AttributeError")
+
+
+o_helper_result.label = "ok | err TypeError | err AttributeError"
 
 
 def o_prep(t):
@@ -571,7 +693,7 @@ def o_prep(t):
         if n % 4 == 3:
             return "!V"
         return f"i{n + 2000}" if n % 2 == 0 else t
-    return t
+    return {"N": "i3000", "e": "i3001", "L": "i3002"}.get(t, t)
 
 
 def o_readings(host):
@@ -623,10 +745,22 @@ def sp_options(case, st, op, n):
     Protocol state: (override, cached) of tokens / None / ANY."""
     ov, ca, fs, fd = (c == "1" for c in case["cfg"])
     on_spec, managed, prep = case["_reading"]
+    ann = case.get("ann", "int")
     override, cached = st
     c = op[0]
     if c == "b":
         return [("ok", st, None)]
+    if c in "cwuZy":
+        # a copy is neither an assignment nor a deletion, and neither is anything done to another attribute: the
+        # instance that comes back has the override / cached value of the one that went in
+        return [(o_helper_result, st, None)]
+    if c in "WR":
+        # copy-on-write forms: the assignment / deletion happens to the copy that is returned; where `x` is not a
+        # managed attribute the helper does not exist
+        res = sp_options(case, st, "a " + op[2:] if c == "W" else "d", n)
+        if not (on_spec and managed):
+            res = res + [("err AttributeError", st, None)]
+        return res
     if c == "r":
         if override == ANY:
             return [(o_val_any, "bind-override", None)]
@@ -654,14 +788,15 @@ def sp_options(case, st, op, n):
                     lenient = True
         else:
             v = g
-        if lenient:  # the text does not say what a sentinel becomes on a managed attribute
-            return [("err ValueError", st, None), (o_val_any, "bind-cached-maybe", None)]
+        if lenient:  # the text does not say what a sentinel becomes on a managed attribute (the annotation's
+            # constructor is called for MISSING / EMPTY; that of Optional / Any raises TypeError)
+            return [("err ValueError", st, None), ("err TypeError", st, None), (o_val_any, "bind-cached-maybe", None)]
         if managed and v in EXC:  # the preparer raised: that is what the read raises, and nothing is cached
             res = [("err " + EXC[v].__name__, st, None)]
             if v == "!A" and not case.get("aae", 1):  # whether allow_attribute_error covers the preparer is not in the text
                 res.append(("err NestedAttributeError", st, None))
             return res
-        if managed and not o_conforms(v):
+        if managed and not o_conforms(v, ann):
             return [("err ValueError", st, None)]
         if not ca:
             return [("val " + v, st, None)]
@@ -696,7 +831,7 @@ def sp_options(case, st, op, n):
             if not ov and not fs:
                 res.append(("err AttributeError", st, None))
             return res
-        if managed and not o_conforms(stored):
+        if managed and not o_conforms(stored, ann):
             # ill-typed value on a managed attribute: the spec-class type check (C03) may reject it first
             res = [("err TypeError", st, None)]
             if not ov and not fs:
@@ -720,11 +855,20 @@ def oracle_step(case, options, ost, op, before, out, after):
     """One observed operation (state before, result, state after on the real object) judged against the set of
     protocol states `ost` = (states, n, explogs). Returns (new ost, violation message or None)."""
     states, n, explogs = ost
+    if op[0] in OBJ_OPS and out.startswith("ok"):
+        # `ok same` / `ok new ^<state of the instance the helper was applied to>`: an operation on a copy is not an
+        # operation on the original
+        if out.startswith("ok new ^") and out[8:] != before.replace(" ;; ", "|"):
+            return ost, (
+                f"{op!r}: returned a new instance but the one it was applied to changed: "
+                f"{before!r} -> {out[8:]!r}"
+            )
+        out = "ok"
     new_states, new_logs = set(), {}
     wanted = []
     for st in states:
         for exp, st2, logent in options(case, st, op, n):
-            wanted.append(exp if isinstance(exp, str) else "val <any>")
+            wanted.append(exp if isinstance(exp, str) else getattr(exp, "label", "val <any>"))
             ok = exp(out) if callable(exp) else (exp == out)
             if not ok:
                 continue
@@ -755,7 +899,7 @@ def oracle_step(case, options, ost, op, before, out, after):
     if not any(log_ok(lg) for lg in new_logs):
         return ost, f"{op!r}: accessor-call log is {real_log!r}, protocol expects one of {sorted(new_logs)}"
     # "raises ... and changes nothing"; a read that raises has not produced a value, so it has cached none either
-    if out.startswith("err") and op[0] in "adr" and before != after:
+    if out.startswith("err") and op[0] != "b" and before != after:
         return ost, f"{op!r}: raised {out[4:]} but the state changed: {before!r} -> {after!r}"
     return (new_states, n, new_logs), None
 
@@ -886,20 +1030,59 @@ def random_layout(rng):
     return "/".join(parts[0])
 
 
-def sp_random(rng, malformed, maxlen):
-    cfg = rng.choice(SP_CFGS)
-    host = rng.choice(HOSTS) if rng.random() < 0.5 else random_layout(rng)
+def cow_ok(host):
+    """Do `with_x` / `reset_x` exist exactly where the instance's metadata manages `x`? Not when an UNDECORATED class
+    joins two bases: the helpers are found along the MRO (either base chain) while `__spec_class__` is the left chain's
+    if it has one -- the model has no such split, so `W` / `R` are not generated on these layouts."""
+    left, _, tail = parse_layout(host)
+    return left is None or "s" in tail[0]
+
+
+# instance-level operations in the random streams (a third of the draws of a case that has them)
+COPY_POOL = ["c", "w i5", "u i6", "Z", "y i7", "W i3", "W i0", "R", "w i5", "c"]
+COPY_POOL_MALFORMED = ["c", "w i5", "w s1", "w U", "w M", "w N", "w F", "u i6", "u s1", "Z", "y i7", "y N", "y M",
+                       "W i3", "W N", "W i97", "W M", "W U", "W s1", "W s2", "W e", "W i99", "R", "R"]
+ANN_DRAW = ["int"] * 5 + ["opt", "opt", "any", "any", "str"]
+
+
+def sp_random(rng, malformed, maxlen, like=None):
+    """`like`: an earlier case whose host classes are used again (same options, layout, build, annotation; building a
+    spec-class hierarchy is the expensive part of a case) with another getter table and another history."""
+    if like is not None:
+        cfg, host, ann = like["cfg"], like["host"], like["ann"]
+    else:
+        cfg = rng.choice(SP_CFGS)
+        host = rng.choice(HOSTS) if rng.random() < 0.5 else random_layout(rng)
+        ann = rng.choice(ANN_DRAW)
     if malformed:
         tab = [rng.choice(G_POOL) for _ in range(rng.randint(1, 5))]
         hg = 0 if rng.random() < 0.08 else 1
         aae = 0 if rng.random() < 0.3 else 1
+        if like is not None:
+            hg, aae = like["hg"], like["aae"]
         pool = ["r", "r", "d", "b", "b"] + ["a " + v for v in A_POOL]
+        extra = COPY_POOL_MALFORMED
     else:
         tab, hg, aae = (MAIN_TABLE if rng.random() < 0.5 else PREP_TABLE), 1, 1
         pool = SP_ALPHABET + ["r", "a F", "a i1", "a i97"]
+        extra = COPY_POOL
+    if rng.random() < 0.6:  # histories that mix property operations with copies and helpers of other attributes
+        if not cow_ok(host):
+            extra = [e for e in extra if e[0] not in "WR"]
+        k = max(1, len(pool) // 2)
+        pool = pool + [rng.choice(extra) for _ in range(k)]
     ops = [rng.choice(pool) for _ in range(rng.randint(1, maxlen))]
-    return {"kind": "sp", "cfg": cfg, "host": host, "hg": hg, "aae": aae, "build": rng.choice(BUILDS),
+    return {"kind": "sp", "cfg": cfg, "host": host, "hg": hg, "aae": aae, "ann": ann,
+            "build": like["build"] if like is not None else rng.choice(BUILDS),
             "getter": list(tab), "ops": ops, "origin": "sp-malformed" if malformed else "sp-random"}
+
+
+def sp_random_stream(rng, malformed, maxlen, n):
+    """n cases, three histories per drawn host"""
+    base = None
+    for i in range(n):
+        base = sp_random(rng, malformed, maxlen, like=base if i % 3 else None)
+        yield base
 
 
 def cp_random(rng, malformed, maxlen):
@@ -922,25 +1105,42 @@ def gen_cases(tier, rng):
         while True:
             r = rng.random()
             if r < 0.35:
-                yield sp_random(rng, False, 10)
+                yield from sp_random_stream(rng, False, 10, 3)
             elif r < 0.6:
-                yield sp_random(rng, True, 10)
+                yield from sp_random_stream(rng, True, 10, 3)
             elif r < 0.85:
                 yield cp_random(rng, False, 10)
             else:
                 yield cp_random(rng, True, 10)
         return
-    sp_len, cp_len = (5, 3) if tier == "quick" else (6, 4)
+    sp_len, cp_len = (4, 3) if tier == "quick" else (6, 4)
     n_sp_rand, n_sp_mal, n_cp_rand, n_cp_mal = (1500, 4000, 3000, 1500) if tier == "quick" else (20000, 60000, 40000, 20000)
     # --- spec_property, exhaustive: the full tree of sequences up to sp_len, one case per (cfg, host, 2-op prefix)
     for cfg in SP_CFGS:
         for host in HOSTS:
-            depth = sp_len + 1 if (tier == "thorough" and host in DEEP_HOSTS) else sp_len
+            depth = sp_len + 1 if host in DEEP_HOSTS else sp_len
             for i, prefix in enumerate(itertools.product(SP_ALPHABET, repeat=2)):
                 # the four ways of building the descriptor rotate over the 25 subtrees of each (cfg, host)
                 yield {"kind": "sp", "cfg": cfg, "host": host, "hg": 1, "aae": 1, "build": BUILDS[i % 4],
                        "getter": MAIN_TABLE, "ops": tree_ops(list(prefix), SP_ALPHABET, depth),
                        "origin": "sp-exhaustive"}
+    # --- instance-level histories on the named spec hosts: EVERY sequence over property operations, deepcopy, a helper
+    # of another attribute and the copy-on-write assignment / deletion of the property; one level deeper (without
+    # `c` and `R`) on the preparer host
+    copy_len = 3 if tier == "quick" else 4
+    for cfg in SP_CFGS:
+        for i, (host, alphabet, depth) in enumerate((("spec", COPY_ALPHABET, copy_len), ("specann", COPY_ALPHABET, copy_len),
+                                                     ("specprep", COPY_DEEP_ALPHABET, copy_len + 1))):
+            yield {"kind": "sp", "cfg": cfg, "host": host, "hg": 1, "aae": 1, "build": BUILDS[(int(cfg, 2) + i) % 4],
+                   "getter": MAIN_TABLE, "ops": tree_ops([], alphabet, depth), "origin": "sp-copy"}
+    # --- other annotations of `x` (Optional[int], Any, str) on the annotated hosts: None / "" as getter result and as
+    # assigned value, a sentinel getter result (the constructor of Optional / Any raises)
+    for cfg in SP_CFGS:
+        for host in ("specann", "specprep"):
+            for i, ann in enumerate(("opt", "any", "str")):
+                yield {"kind": "sp", "cfg": cfg, "host": host, "hg": 1, "aae": 1, "ann": ann,
+                       "build": BUILDS[(int(cfg, 2) + i) % 4], "getter": ANN_TABLES[ann],
+                       "ops": tree_ops([], ANN_ALPHABET, copy_len), "origin": "sp-ann"}
     # --- spec_property, every layout of one and two classes (where the property is declared x which class is
     # decorated / annotates / defines the preparer): the full tree of sequences up to lay_len over LAYOUT_ALPHABET,
     # once with overridable+cache and a getter whose results make a preparer raise, once with one of the 16
@@ -951,8 +1151,12 @@ def gen_cases(tier, rng):
         yield {"kind": "sp", "cfg": LAYOUT_CFG, "host": host, "hg": 1, "aae": 1, "build": BUILDS[i % 4],
                "getter": PREP_TABLE, "ops": tree_ops([], LAYOUT_ALPHABET, lay_len), "origin": "sp-layout"}
         j = i // 2  # consecutive layouts share the rotating combination: one with the main table, one with AE_TABLE
+        # ... walked with the helper of another attribute and the copy-on-write assignment in the alphabet, the
+        # annotation rotating over int / Optional[int] / Any
         yield {"kind": "sp", "cfg": SP_CFGS[j % 16], "host": host, "hg": 1, "aae": 1 - i % 2, "build": BUILDS[(i // 4) % 4],
-               "getter": AE_TABLE if i % 2 else MAIN_TABLE, "ops": tree_ops([], LAYOUT_ALPHABET, lay_len),
+               "ann": ("int", "opt", "any")[j % 3],
+               "getter": AE_TABLE if i % 2 else MAIN_TABLE,
+               "ops": tree_ops([], LAYOUT_COPY_ALPHABET, lay_len),
                "origin": "sp-layout"}
     # multiple inheritance `class Leaf(L, R)`: a seeded sample (quick) / all (thorough) of the 3584 shapes, depth 2
     mi = all_mi_layouts()
@@ -969,10 +1173,8 @@ def gen_cases(tier, rng):
         yield {"kind": "sp", "cfg": SP_CFGS[(5 * i) % 16] if i % 2 else LAYOUT_CFG, "host": host, "hg": 1,
                "aae": 1, "build": BUILDS[i % 4], "getter": PREP_TABLE if i % 4 < 2 else MAIN_TABLE,
                "ops": tree_ops([], LAYOUT_ALPHABET, 2), "origin": "sp-layout3"}
-    for _ in range(n_sp_rand):
-        yield sp_random(rng, False, 12)
-    for _ in range(n_sp_mal):
-        yield sp_random(rng, True, 12)
+    yield from sp_random_stream(rng, False, 12, n_sp_rand)
+    yield from sp_random_stream(rng, True, 12, n_sp_mal)
     # --- classproperty, exhaustive over the small alphabet: one case per (cfg, first op)
     for cfg in CP_CFGS:
         for i, first in enumerate(CP_SMALL):
@@ -1016,19 +1218,26 @@ def shrink(case, at=None):
 def extra(tier, rng):
     """Nothing is validated outside the line protocol; this only reports how many distinct operation
     sequences the tree-shaped exhaustive cases stand for."""
-    sp_len, cp_len = (5, 3) if tier == "quick" else (6, 4)
+    sp_len, cp_len = (4, 3) if tier == "quick" else (6, 4)
     n_sp = 0
     for host in HOSTS:
-        d = sp_len + 1 if (tier == "thorough" and host in DEEP_HOSTS) else sp_len
+        d = sp_len + 1 if host in DEEP_HOSTS else sp_len
         n_sp += len(SP_CFGS) * sum(len(SP_ALPHABET) ** k for k in range(2, d + 1))
     n_cp = len(CP_CFGS) * sum(len(CP_SMALL) ** k for k in range(1, cp_len + 1))
     lay_len = 3 if tier == "quick" else 4
-    n_lay = 2 * (len(all_layouts(1)) + len(all_layouts(2))) * sum(len(LAYOUT_ALPHABET) ** k for k in range(1, lay_len + 1))
+    n_lay = (len(all_layouts(1)) + len(all_layouts(2))) * (
+        sum(len(LAYOUT_ALPHABET) ** k for k in range(1, lay_len + 1))
+        + sum(len(LAYOUT_COPY_ALPHABET) ** k for k in range(1, lay_len + 1)))
+    copy_len = 3 if tier == "quick" else 4
+    n_copy = len(SP_CFGS) * (2 * sum(len(COPY_ALPHABET) ** k for k in range(1, copy_len + 1))
+                             + sum(len(COPY_DEEP_ALPHABET) ** k for k in range(1, copy_len + 2)))
+    n_ann = len(SP_CFGS) * 6 * sum(len(ANN_ALPHABET) ** k for k in range(1, copy_len + 1))
     per2 = sum(len(LAYOUT_ALPHABET) ** k for k in range(1, 3))
     n_lay += (2000 if tier == "quick" else len(all_mi_layouts()) + len(all_layouts(3))) * per2
     return {"evaluations": 0, "info": {
         "spec_property_sequences_exhaustive": n_sp, "classproperty_sequences_exhaustive": n_cp,
         "spec_property_layout_sequences": n_lay,
+        "spec_property_instance_level_sequences": n_copy, "spec_property_annotation_sequences": n_ann,
         "layouts": {"chains_1_2": len(all_layouts(1)) + len(all_layouts(2)), "chains_3": len(all_layouts(3)),
                     "multiple_inheritance": len(all_mi_layouts())},
         "note": "each tree edge is one compared protocol line; every sequence of the tree is judged by the oracle",
@@ -1056,7 +1265,7 @@ def steps(case, real):
 def nontrivial(case, real):
     keys = []
     cfg = (case["kind"], case["cfg"], case.get("host", ""), case.get("hg", 1), case.get("aae", 1),
-           case.get("build", "deco"))
+           case.get("build", "deco"), case.get("ann", "int"))
     gk = 0 if case["getter"] in (MAIN_TABLE, CP_TABLE) else tuple(case["getter"][:4])
     for op, pre, post in steps(case, real):
         if post.startswith("err") or post.split(" ;; ", 1)[-1] != pre:
@@ -1090,11 +1299,21 @@ def tags(case, real):
             d = declaring[-1]
             t.append("declared-on:" + ("managing-class" if "s" in d and "a" in d else "other-spec-class" if "s" in d
                                        else "plain-class"))
+        t.append("ann:" + case.get("ann", "int"))
     depth = 0
-    for line in case["ops"]:
-        k, _ = split_op(line, depth)
+    gens = [0]  # gens[k]: how many times the instance has been replaced by a copy after the first k operations
+    for i, line in enumerate(case["ops"]):
+        k, op = split_op(line, depth)
         depth = k + 1
         t.append(f"depth:{depth}")
+        if case["kind"] == "sp" and k < len(gens) and i + 1 < len(real):
+            del gens[k + 1:]
+            head = real[i + 1].split(" ;; ")
+            gens.append(gens[k] + (1 if head[0].startswith("ok new") else 0))
+            if op[0] == "r" and gens[k] and head[0].startswith("val "):
+                # a read on a first / second / third-or-later generation copy; `stored`: override or cached value
+                stored = len(head) > 1 and head[1] != "-" and head[0][4:] == head[1]
+                t.append(f"read-on-copy:gen{min(gens[k], 3)}:{'stored' if stored else 'getter'}")
     for op, pre, post in steps(case, real):
         t.append(f"op:{case['kind']}:{op[0]}")
         head = post.split(" ;; ")[0]
@@ -1118,7 +1337,7 @@ def tags(case, real):
 
 
 MANIFEST_ENTRY = {
-    "level_text": "Lean 4 proof, for a universally quantified configuration (overridable, cache, custom setter, custom deleter, plain/spec host, managed annotation, preparer, getter present, allow_attribute_error: all combinations at once) and operation sequences of any length, that the Impl model of spec_property.__get__/__set__/__delete__ (one instance-dict slot) refines the override/cache/getter protocol of the property text (ghost override and cache; invariant relating the slot to them): a read returns the override if set, else the value cached since the last deletion when caching is on, else the prepared and type-checked getter result on current state; cached and overridden values are stable under changes of the underlying state; assignment with neither overridable nor a setter raises AttributeError and changes nothing; deletion clears or raises; custom accessors are called exactly once and leave the slot alone; every value read on a managed spec-class attribute conforms to the annotation; an operation that raises (getter, preparer -- which may raise --, type check, assignment layer, __set__, __delete__) leaves slot, underlying state and log exactly as they were, so a failed read leaves no trace; the host flags are a function (resolve / resolveMI, mirroring spec_class.bootstrap for one attribute) of the inheritance hierarchy of type(instance): managed iff some spec class of the chain annotates the attribute, wherever the descriptor is declared (plain mixin, un-annotating spec parent, subclass), also across a class joining two base chains; the same protocol per cache key for classproperty over an arbitrary set of classes, per-subclass independence over whole operation sequences, a single shared slot otherwise, instance access acting on type(obj). The model is tied to /repo on every run by executing EVERY operation sequence up to length 5 (quick tier) / 6-7 (thorough) over {read, assign v1, assign v2, delete, bump} for all 16 option combinations on four hosts (and the classproperty analogue, 32 combinations over a three-class chain, length 3 / 4) on the real descriptors and on the model, every sequence up to length 3 / 4 on all 200 one- and two-class layouts (which class is decorated / declares the property / annotates / defines the preparer) with getter results and assigned values that make the preparer raise, three-class chains and multiple-inheritance shapes to depth 2, with falsy values (0, False, '', None, []) in every value position and the descriptor built in four ways (constructor, decorator with options, two .getter/.setter/.deleter chain orders), comparing value / exception class / slot or cache dict / accessor-call log after every step; an independent explicit state machine written from the property text judges every case.",
-    "level_note": "Trusted: Lean kernel; axioms propext/Classical.choice/Quot.sound only; the hand-written model (incl. the spec-class assignment layer in front of the descriptor and the one-attribute model of the class bootstrap) and the correspondence harness. The theorems are about the model; the per-run correspondence ties them to the code. Not covered: invalidated_by (C11), warn_on_override, frozen spec classes, collection-typed annotations, a raising type constructor, class hierarchies other than chains / two joined chains, plain `Cls.x = v` rebinding of a classproperty.",
+    "level_text": "Lean 4 proof, for a universally quantified configuration (overridable, cache, custom setter, custom deleter, plain/spec host, managed annotation, preparer, getter present, allow_attribute_error: all combinations at once) and operation sequences of any length, that the Impl model of spec_property.__get__/__set__/__delete__ (one instance-dict slot) refines the override/cache/getter protocol of the property text (ghost override and cache; invariant relating the slot to them): a read returns the override if set, else the value cached since the last deletion when caching is on, else the prepared and type-checked getter result on current state; cached and overridden values are stable under changes of the underlying state; assignment with neither overridable nor a setter raises AttributeError and changes nothing; deletion clears or raises; custom accessors are called exactly once and leave the slot alone; every value read on a managed spec-class attribute conforms to the annotation; an operation that raises (getter, preparer -- which may raise --, type check, assignment layer, __set__, __delete__) leaves slot, underlying state and log exactly as they were, so a failed read leaves no trace; the instance as a whole (Obj: protocol state + another managed attribute) under copy.deepcopy, the copy-on-write helpers of the other attribute and with_x / reset_x: the generated __deepcopy__ carries every instance-dict entry over, with_x / reset_x are assignment / deletion on a copy, any history interleaving all of these leaves an n-th generation copy in the protocol state of the projected history (override and cached value survive copies of copies; operations on other attributes are invisible), a helper that raises returns no new instance and changes nothing; which values reach the preparer is decided by the sentinel tests alone (None, '', [] are prepared), the annotation's constructor may raise; the host flags are a function (resolve / resolveMI, mirroring spec_class.bootstrap for one attribute) of the inheritance hierarchy of type(instance): managed iff some spec class of the chain annotates the attribute, wherever the descriptor is declared (plain mixin, un-annotating spec parent, subclass), also across a class joining two base chains; the same protocol per cache key for classproperty over an arbitrary set of classes, per-subclass independence over whole operation sequences, a single shared slot otherwise, instance access acting on type(obj). The model is tied to /repo on every run by executing EVERY operation sequence up to length 4-5 (quick tier; 5 on the plain and the preparer host) / 6-7 (thorough) over {read, assign v1, assign v2, delete, bump} for all 16 option combinations on four hosts, every sequence up to length 3 / 4 (4 / 5 on the preparer host) over property operations mixed with copy.deepcopy, the copy-on-write helper of another attribute and with_x / reset_x (and the classproperty analogue, 32 combinations over a three-class chain, length 3 / 4) on the real descriptors and on the model, every sequence up to length 3 / 4 on all 200 one- and two-class layouts (which class is decorated / declares the property / annotates / defines the preparer) with getter results and assigned values that make the preparer raise, three-class chains and multiple-inheritance shapes to depth 2, with falsy values (0, False, '', None, []) in every value position and the descriptor built in four ways (constructor, decorator with options, two .getter/.setter/.deleter chain orders), comparing value / exception class / slot or cache dict / accessor-call log after every step; an independent explicit state machine written from the property text judges every case.",
+    "level_note": "Trusted: Lean kernel; axioms propext/Classical.choice/Quot.sound only; the hand-written model (incl. the spec-class assignment layer in front of the descriptor and the one-attribute model of the class bootstrap) and the correspondence harness. The theorems are about the model; the per-run correspondence ties them to the code. Not covered: invalidated_by (C11), warn_on_override, frozen spec classes, collection-typed annotations, mutable values in the instance dict (sharing between a copy and its original), do_not_copy, transform_<attr>, class hierarchies other than chains / two joined chains, plain `Cls.x = v` rebinding of a classproperty.",
     "technique": "Lean 4 refinement proof (ghost-state invariant, induction over operation sequences) over a hand-written model; exhaustive small-scope differential correspondence against the real descriptors",
 }
